@@ -1353,10 +1353,18 @@ pub fn history_json(seed_name: &str, hist: &[Op], op: Option<&Op>) -> Value {
 
 /// breadth-first exploration; `report` receives every finding with its witness
 pub fn explore(cfg: &Config, ctx: &Ctx, report: &(dyn Fn(&Finding, Value) + Sync)) -> ExploreStats {
+    // the wall cap applies to this run (one profile), not to the whole check
+    let run_start = ctx.elapsed();
     let mut stats = ExploreStats::default();
-    let mut min_depth = usize::MAX;
+    struct PerSeed {
+        name: &'static str,
+        seen: HashSet<(usize, u64)>,
+        frontier: Vec<Vec<Op>>,
+        depth_done: usize,
+        exhausted: bool,
+    }
+    let mut per_seed: Vec<PerSeed> = vec![];
     for seed_name in &cfg.seeds {
-        let mut seed_depth = 0usize;
         let mut seen: HashSet<(usize, u64)> = HashSet::new();
         let w0 = seed(seed_name);
         for fnd in state_invariants(&w0, None) {
@@ -1379,12 +1387,22 @@ pub fn explore(cfg: &Config, ctx: &Ctx, report: &(dyn Fn(&Finding, Value) + Sync
         let c0 = format!("{}\n||{}", canon(&w0.m).whole(), canon(&w0.other).whole());
         seen.insert((0, hash_str(&c0)));
         stats.states += 1;
-        let mut frontier: Vec<Vec<Op>> = vec![vec![]];
-        for depth in 1..=cfg.depth {
-            if ctx.elapsed() > cfg.wall_cap_s {
-                stats.capped = true;
-                break;
+        per_seed.push(PerSeed { name: seed_name, seen, frontier: vec![vec![]], depth_done: 0, exhausted: false });
+    }
+    // level by level over all seeds (breadth first across seeds too): when the wall cap ends the run, every seed has been
+    // explored to the same depth, give or take the level that was cut
+    'levels: for depth in 1..=cfg.depth {
+        for ps in per_seed.iter_mut() {
+            if ps.exhausted {
+                ps.depth_done = depth;
+                continue;
             }
+            if ctx.elapsed() - run_start > cfg.wall_cap_s {
+                stats.capped = true;
+                break 'levels;
+            }
+            let seed_name = ps.name;
+            let frontier = std::mem::take(&mut ps.frontier);
             // every (history, op) pair of this level
             let work: Vec<(usize, Op)> = frontier
                 .par_iter()
@@ -1394,7 +1412,16 @@ pub fn explore(cfg: &Config, ctx: &Ctx, report: &(dyn Fn(&Finding, Value) + Sync
                     ops_for(&w, cfg.profile).into_iter().map(move |op| (hi, op)).collect::<Vec<_>>()
                 })
                 .collect();
-            let results: Vec<(usize, TransitionResult)> = work.par_iter().map(|(hi, op)| (*hi, run_transition(seed_name, &frontier[*hi], op, cfg.stale_sweep, cfg.read_sweep))).collect();
+            // in chunks, so that the wall cap also ends a level that has begun (the level then does not count as completed)
+            let mut results: Vec<(usize, TransitionResult)> = Vec::with_capacity(work.len());
+            let mut level_cut = false;
+            for chunk in work.chunks(20_000) {
+                if ctx.elapsed() - run_start > cfg.wall_cap_s {
+                    level_cut = true;
+                    break;
+                }
+                results.extend(chunk.par_iter().map(|(hi, op)| (*hi, run_transition(seed_name, &frontier[*hi], op, cfg.stale_sweep, cfg.read_sweep))).collect::<Vec<_>>());
+            }
             let mut next: BTreeMap<u64, Vec<Op>> = BTreeMap::new();
             for (hi, tr) in results {
                 stats.transitions += 1;
@@ -1417,7 +1444,7 @@ pub fn explore(cfg: &Config, ctx: &Ctx, report: &(dyn Fn(&Finding, Value) + Sync
                     stats.pruned += 1;
                     continue;
                 }
-                if tr.outcome_class == "Ok" && !seen.contains(&(depth, tr.canon_hash)) && !(0..depth).any(|d| seen.contains(&(d, tr.canon_hash))) {
+                if tr.outcome_class == "Ok" && !(0..=depth).any(|d| ps.seen.contains(&(d, tr.canon_hash))) {
                     let mut h = frontier[hi].clone();
                     h.push(tr.op.clone());
                     // deterministic representative: the smallest history
@@ -1430,19 +1457,21 @@ pub fn explore(cfg: &Config, ctx: &Ctx, report: &(dyn Fn(&Finding, Value) + Sync
                 }
             }
             for k in next.keys() {
-                seen.insert((depth, *k));
+                ps.seen.insert((depth, *k));
             }
             stats.states += next.len() as u64;
-            frontier = next.into_values().collect();
-            seed_depth = depth;
-            if frontier.is_empty() {
-                seed_depth = cfg.depth; // nothing left to explore: every deeper level is empty
-                break;
+            if level_cut {
+                stats.capped = true;
+                break 'levels;
+            }
+            ps.frontier = next.into_values().collect();
+            ps.depth_done = depth;
+            if ps.frontier.is_empty() {
+                ps.exhausted = true; // nothing left to explore: every deeper level is empty
             }
         }
-        min_depth = min_depth.min(seed_depth);
     }
-    stats.depth_completed = if min_depth == usize::MAX { 0 } else { min_depth };
+    stats.depth_completed = per_seed.iter().map(|p| if p.exhausted { cfg.depth } else { p.depth_done }).min().unwrap_or(0);
     stats
 }
 
